@@ -54,11 +54,7 @@ func main() {
 		os.Exit(2)
 	}
 	var names []string
-	if *units == "all" {
-		names = e.allFunctionNames(pkgPath)
-	} else {
-		names = strings.Split(*units, ",")
-	}
+	names = e.expandUnitNames(pkgPath, strings.Split(*units, ","))
 	us, missing := e.unitsFor(pkgPath, names)
 	for _, m := range missing {
 		fmt.Println("MISSING unit", m)
